@@ -63,6 +63,10 @@ func gsProto(c int, verified, fast bool) proto {
 var (
 	pBitswap = proto{"bitswap", multicodec.TransportBitswap, func() metadata.Protocol { return &metadata.Bitswap{} }}
 	pGateway = proto{"gateway", multicodec.TransportIpfsGatewayHttp, func() metadata.Protocol { return &metadata.IpfsGatewayHttp{} }}
+	// the payload-less protocols have value receivers, so a caller may hand
+	// them over by value as well; the decoder always produces pointers
+	pBitswapV = proto{"bitswap(by-value)", multicodec.TransportBitswap, func() metadata.Protocol { return metadata.Bitswap{} }}
+	pGatewayV = proto{"gateway(by-value)", multicodec.TransportIpfsGatewayHttp, func() metadata.Protocol { return metadata.IpfsGatewayHttp{} }}
 )
 
 // unknown codes: below all known, between bitswap and graphsync, between
@@ -82,7 +86,7 @@ func idSlots(thorough bool) [][]proto {
 	if thorough {
 		lens = []int{1, 0, 127, 128, 900}
 	}
-	slots := [][]proto{{pBitswap}, gs, {pGateway}}
+	slots := [][]proto{{pBitswap, pBitswapV}, gs, {pGateway, pGatewayV}}
 	for _, code := range unknownCodes {
 		var v []proto
 		for _, n := range lens {
@@ -381,7 +385,7 @@ func firstLine(s string) string {
 
 func TestCheck(t *testing.T) {
 	r := vp.New("C11", "exploration",
-		"collections: every subset of 8 distinct protocol IDs (bitswap, graphsync-filecoin, gateway, 5 unknown codes) of size 1..N in every construction order; every variant combination (8 graphsync values, unknown payload lengths) for subsets of size <=K in sorted and reversed order; collections with repeated IDs. Decoder: for every corpus encoding every single-byte substitution, every truncation, every boundary varint written at every byte offset over 1..3 bytes, unknown-protocol headers declaring every length of the systematic set (2^k-1, 2^k, 2^k+1 for all k; the 25 values below 2^63 and below 2^64; the size limit +-12) for 6 codes x 3 tails; unknown payloads of every length 0..MaxMetadataSize; graphsync-filecoin with identity piece CIDs of 0..300 digest bytes; two-protocol out-of-order concatenations, and all byte strings of length <=2. Non-trivial: collections of >=2 protocols; decoder inputs other than the unmodified corpus.",
+		"collections: every subset of 8 distinct protocol IDs (bitswap, graphsync-filecoin, gateway, 5 unknown codes) of size 1..N in every construction order; every variant combination (8 graphsync values, unknown payload lengths, bitswap and gateway handed over as pointer and by value) for subsets of size <=K in sorted and reversed order; collections with repeated IDs. Decoder: for every corpus encoding every single-byte substitution, every truncation, every boundary varint written at every byte offset over 1..3 bytes, unknown-protocol headers declaring every length of the systematic set (2^k-1, 2^k, 2^k+1 for all k; the 25 values below 2^63 and below 2^64; the size limit +-12) for 6 codes x 3 tails; unknown payloads of every length 0..MaxMetadataSize; graphsync-filecoin with identity piece CIDs of 0..300 digest bytes; two-protocol out-of-order concatenations, and all byte strings of length <=2. Non-trivial: collections of >=2 protocols; decoder inputs other than the unmodified corpus.",
 		"unknown protocols are constructed the way the decoder builds them (payload holds code, length prefix and data)",
 		"collections with repeated IDs are only required to be ID-sorted and to round-trip as a multiset (order among equal IDs is not defined by the statement)",
 		"allocation bound used: 64 KiB + 64 x input length, measured with runtime/metrics /gc/heap/allocs:bytes (span-granular for small objects)",
